@@ -82,6 +82,12 @@ def build(tier: str) -> list[Obligation]:
                          ["-128 <= c <= 127", "-2147483648 <= i <= 2147483647", "len(y) <= 3"],
                          "return proxy_write_is_one_item(c, i, fixlen(y, 3))\n")
     obs.append(Obligation(name="proxy_write_one_item", module_src=src, fn="h", timeout=120, meta={"transport": "proxy"}))
+    # a frame larger than any plausible buffer still goes out as one item / one write call (concrete 200 kB payload, symbolic header)
+    src = e1.make_module(PRELUDE, "h", "c: int, i: int", ["-128 <= c <= 127", "-2147483648 <= i <= 2147483647"],
+                         "big = bytes(200000)\nif not proxy_write_is_one_item(c, i, big):\n    return False\n"
+                         "for t in ('popen', 'socket'):\n    io_w, sink = make_writer(t)\n    gb.Message(c, i, big).to_io(io_w)\n"
+                         "    parts = sink.written if t == 'popen' else sink.sent\n    if len(parts) != 1 or len(parts[0]) != 9 + len(big):\n        return False\nreturn True\n")
+    obs.append(Obligation(name="large_frame_single_write", module_src=src, fn="h", timeout=120, meta={"transport": "all"}))
     return obs
 
 
